@@ -617,7 +617,7 @@ func init() {
 				},
 			},
 			{
-				Name: "registry-x-random-values", Count: h.Fixed(400, 40000),
+				Name: "registry-x-random-values", Count: h.Fixed(400, 400000),
 				Run: func(c *h.Ctx, idx uint64, r *h.Rand) {
 					setup()
 					// well-formed random values: squares and lines on a small grid, degenerate members mixed in
@@ -683,7 +683,7 @@ func init() {
 			{
 				// values whose rings / lines are windows into one flat buffer with spare capacity behind each of them:
 				// a read-only function must not write beyond len() either (append into the caller's spare capacity)
-				Name: "read-only-with-shared-buffers", Count: h.Fixed(200, 20000),
+				Name: "read-only-with-shared-buffers", Count: h.Fixed(200, 200000),
 				Run: func(c *h.Ctx, idx uint64, r *h.Rand) {
 					setup()
 					flat := make([]orb.Point, 40)
